@@ -255,8 +255,14 @@ def npConcatShape (shapes : List Shape) (ax : Int) : Except Err Shape :=
         .ok (s0.set i ((shapes.map fun s => s.getD i 0).sum))
       else .error .value
 
-/-- ≙ runtime.py:3024-3026 `np_stack` declared shape: `shape = list(a.shape); shape.insert(axis, len(arrays))` -/
-def stackShape (s : Shape) (n : Nat) (axis : Int) : Shape := pyInsert s axis n
+/-- ≙ runtime.py:3034-3035 `np_stack` declared shape (after fix 86712c2):
+`shape = list(a.shape); shape.insert(axis % (a.ndim + 1), len(arrays))` (Python `%`: result in `0..ndim`) -/
+def stackShape (s : Shape) (n : Nat) (axis : Int) : Shape :=
+  pyInsert s (axis % ((s.length : Int) + 1)) n
+
+/-- the rule BEFORE fix 86712c2: `shape.insert(axis, len(arrays))` with Python's list semantics for a
+negative index (kept for the regression theorem `old_stack_rule_negative_axis_differs`) -/
+def stackShapeOld (s : Shape) (n : Nat) (axis : Int) : Shape := pyInsert s axis n
 
 /-- what NumPy does: the new axis is normalised against `ndim + 1` -/
 def npStackShape (s : Shape) (n : Nat) (axis : Int) : Option Shape :=
